@@ -1026,24 +1026,9 @@ End Local.
 Require Import Overlap Condense ParaSplit ParaSplitProofs.
 From Coq Require Import Sorting.Permutation.
 
-(* the kind class of a lexer token: what the iterators and the quote pairing look at *)
-Definition classify (k : Lexer.tkind) : ParaSplit.kind :=
-  match k with
-  | Lexer.KParagraphBreak => ParaSplit.KBreak
-  | Lexer.KNewline _ => ParaSplit.KNewline
-  | Lexer.KSpace _ => ParaSplit.KSpace
-  | Lexer.KWord => ParaSplit.KWord
-  | Lexer.KNumber _ => ParaSplit.KNumber
-  | Lexer.KPunct PPeriod => ParaSplit.KPeriod
-  | Lexer.KPunct PBang => ParaSplit.KBang
-  | Lexer.KPunct PQuestion => ParaSplit.KQuestion
-  | Lexer.KPunct PComma => ParaSplit.KComma
-  | Lexer.KPunct PColon => ParaSplit.KColon
-  | Lexer.KPunct (PQuote tw) => ParaSplit.KQuote tw
-  | Lexer.KPunct _ => ParaSplit.KPunct
-  | _ => ParaSplit.KOther
-  end.
-Definition to_ps (t : Lexer.token) : ParaSplit.tok := ParaSplit.mktok (Lexer.tspan t) (classify (tkind_of t)).
+(* classify / to_ps / doc_tokens (the kind class of a lexer token, the document tokens as kind classes) live in
+   Model/C12Doc.v since phase 3: they are extracted for the correspondence *)
+Require Import C12Doc.
 
 (* moving document tokens of D behind a P of n characters and k tokens (twin_loc is a token index) *)
 Definition shift_lkind (k : nat) (kd : Lexer.tkind) : Lexer.tkind :=
@@ -1060,10 +1045,6 @@ Proof.
   f_equal. destruct kd as [|p| | | | | | | | | |]; try reflexivity.
   destruct p; try reflexivity. destruct twin_loc; reflexivity.
 Qed.
-
-(* Document::new_plain_english(s).tokens as kind classes ([] if the model panics: excluded by C01/C02) *)
-Definition doc_tokens (u : uni) (s : text) : list ParaSplit.tok :=
-  match document_plain u s with Ok ts => map to_ps ts | Panic _ => [] end.
 
 (* the premise of the property on P: no double quote, a sentence terminator, a blank line *)
 Definition quote_free (P : text) : Prop := Forall (fun c => mem_n c quote_chars = false) P.
